@@ -105,11 +105,21 @@ def corr_convolution(chk, r, n):
     eps_q = f"{e_.numerator}/{e_.denominator}"
     drv = Driver()
     pend = []
-    for i in range(n):
+    combos = [(True, False), (False, True), (True, True), (False, False)]
+    # structured block: every combination of pieces at points inside the domain (generic, on a node,
+    # next to 1) against a basis function that does not vanish there
+    structured = [(c, pt) for c in combos for pt in (0.137, float(grid[4]), 0.9999)]
+    for i in range(n + len(structured)):
         j = r.randrange(len(grid))
+        point = float(r.choice([1.0, 1.0 - eps, float(np.nextafter(1.0 - eps, 0)), 1.0 - 2 * eps, 1.2, r.uniform(0.02, 0.99), r.uniform(0.02, 0.99), r.choice(grid[1:-1]), 0.9999]))
+        has_reg, has_loc = r.choice(combos)
+        if i < len(structured):
+            (has_reg, has_loc), point = structured[i]
+        if point < 1 and (i < len(structured) or r.random() < 0.6):
+            live = [jj for jj in range(len(grid)) if float(interp[jj](point)) != 0.0]
+            if live:
+                j = r.choice(live)
         pj = interp[j]
-        point = float(r.choice([1.0, 1.0 - eps, float(np.nextafter(1.0 - eps, 0)), 1.0 - 2 * eps, 1.2, r.uniform(0.02, 0.99), r.choice(grid[1:-1]), 0.9999]))
-        has_reg, has_loc = r.choice([(True, False), (False, True), (True, True), (False, False)])
         locv = float(r.uniform(-3, 3))
         rsl = RSL(reg=(lambda z, a: 1.0 + z) if has_reg else None, loc=(lambda x, a, v=locv: v) if has_loc else None)
         real = float(conv.convolution(rsl, point, pj)[0])
